@@ -1,7 +1,7 @@
 (* C01 — Selected nodes are exactly the RFC 9535 nodelist.  Statements only. *)
 From Coq Require Import List NArith ZArith Bool Permutation.
 From JP Require Import Base Ast Eval ValueModel Spec Known WellFormed Regex Entry DataFacts SelFacts
-  Refine Order SpecFacts RegexFacts Build FragParse FragBuild Purity GenParse GenBuild FilterParse FilterBuild StringLevel.
+  Refine Order SpecFacts RegexFacts Build FragParse FragBuild Purity GenParse GenBuild FilterParse FilterBuild StringLevel SingularFacts.
 Import ListNotations.
 
 (* Theorem A: the model returns exactly the nodelist of the semantics with the switch sel_major
@@ -82,6 +82,23 @@ Theorem C01_string_level_with_filters : forall n (q : list (gseg (SelT n))) (d :
     /\ Forall (fun p => lookup d (ploc p) = Some (inner p)) ps.
 Proof. exact filter_end_to_end. Qed.
 Print Assumptions C01_string_level_with_filters.
+
+(* RFC 9535 2.3.5.1: a singular query (name and index segments only) selects at most one node - for EVERY document; the RFC
+   nodelist first, then what the model of js_path_process returns (through Theorem A) *)
+Theorem C01_singular_query_at_most_one_node : forall q d, singular q = true -> (length (rfc_query q d) <= 1)%nat.
+Proof. exact singular_rfc_at_most_one. Qed.
+Print Assumptions C01_singular_query_at_most_one_node.
+Theorem C01_singular_query_model_at_most_one : forall q d ps,
+  wf_query q = true -> singular q = true -> m_query q d = Some ps -> (length ps <= 1)%nat.
+Proof. exact singular_model_at_most_one. Qed.
+Print Assumptions C01_singular_query_model_at_most_one.
+(* not vacuous: $.a[-1] is singular and well formed, and selects exactly one node of {"a":[1,2]} *)
+Example C01_singular_example :
+  let q := GCons (SegSel (SelName [97]%N)) (GCons (SegSel (SelIndex (-1))) GNil) in
+  let d := JObj [([97]%N, JArr [JNum (NInt 1); JNum (NInt 2)])] in
+  singular q = true /\ wf_query q = true /\ map snd (rfc_query q d) = [JNum (NInt 2)]
+  /\ option_map (@length _) (m_query q d) = Some 1%nat.
+Proof. vm_compute. repeat split. Qed.
 
 (* non-vacuity: a bookstore-like document, $..book[?@.price<10].title *)
 Definition ex_doc : json :=
